@@ -7,7 +7,7 @@ Open Scope Z_scope.
 
 Lemma filter_pass_exact cfg ops nd p n m thr isAgg aggT aggD prodPod :
   alookup (nd_name nd) (run cfg ops) = Some n -> n_metric n = Some m ->
-  p_ds p = false ->
+  daemonset p = false ->
   select_thresholds (node_profile cfg nd) (is_prod p) = (thr, isAgg, aggT, aggD, prodPod) ->
   expiry_applies cfg m = false -> is_some (m_info m) = true ->
   filter cfg (run cfg ops) nd p = 0 ->
